@@ -966,7 +966,7 @@ impl Property for C15 {
         192
     }
     fn cases(&self, tier: Tier) -> u64 {
-        tier.pick(1_280_000, 16_000_000)
+        tier.pick(1_280_000, 500_000_000)
     }
 
     fn run_tape(&self, tape: &[u8], ctx: &mut Ctx) -> Result<(), Failure> {
